@@ -264,11 +264,18 @@ class Assembler:
                     pre_byte: Optional[int] = None
                     if len(imem_ops) == 2:
                         pair = (imem_ops[0].mode, imem_ops[1].mode)
+                        # (BP+m),(BP+n) is the addressing the CPU applies without
+                        # a prefix byte (what the disassembler prints for an
+                        # unprefixed instruction), so it needs no PRE.
+                        default_pair = pair == (
+                            AddressingMode.BP_N,
+                            AddressingMode.BP_N,
+                        )
                         if pair == (AddressingMode.BP_PX, AddressingMode.BP_PY):
                             pre_byte = None
                         else:
                             pre_byte = REVERSE_PRE_TABLE.get(pair)
-                        if pre_byte is None:
+                        if pre_byte is None and not default_pair:
                             raise AssemblerError(
                                 f"Invalid addressing mode combination for {mnemonic}: "
                                 f"{imem_ops[0].mode.value} and {imem_ops[1].mode.value}"
